@@ -579,6 +579,9 @@ def search_nodes(ctx: Ctx) -> SearchResult:
 		proj.write(mp, src)
 		modules.append((mp, label))
 	for rel in pygen.real_files(ctx.thorough, rng, ctx.scale(4, 60)):
+		# snapshot into the project (first in SourceEnvPath): immune to concurrent edits of the repository
+		with open(os.path.join(common.REPO, rel), 'rb') as fh:
+			proj.write(rel[:-3].replace(os.sep, '.'), fh.read())
 		modules.append((rel[:-3].replace(os.sep, '.'), rel))
 	seen = set()
 	exercised = 0
@@ -605,7 +608,7 @@ def search_nodes(ctx: Ctx) -> SearchResult:
 			res.findings.append(Finding(key='nodes-diff:second-restore', what=f'{label}: two loads of the same cache file give different nodes', replay={'module': label}))
 		seen.add(hash(tuple(f1.items())))
 		if list(f1.keys()) != list(f2.keys()):
-			res.findings.append(Finding(key='nodes-diff:paths', what=f'{label}: path lists differ ({len(f1)} vs {len(f2)})', replay={'module': label, 'source': open(os.path.join(proj.root if mp.startswith('gen.') else common.REPO, mp.replace('.', os.sep) + '.py'), encoding='utf-8').read()[:20000]}))
+			res.findings.append(Finding(key='nodes-diff:paths', what=f'{label}: path lists differ ({len(f1)} vs {len(f2)})', replay={'module': label, 'source': open(os.path.join(proj.root, mp.replace('.', os.sep) + '.py'), encoding='utf-8', newline='').read()[:20000]}))
 			continue
 		aspects = ['class', 'tokens', 'source_map', 'id', 'values', 'full_path']
 		for p in f1:
